@@ -105,6 +105,7 @@ type Result struct {
 	Truncated    bool
 	Samples      []string
 	Witnesses    []*Violation // a few completed (passing) paths, replayable natively
+	BoundPaths   []*Violation // paths cut by a budget (candidates for non-termination)
 	Rounds       int
 	MaxTraceLen  int
 	Allocs       int
@@ -339,6 +340,9 @@ func (p *Program) exploreOnce(entry *ssa.Function) (*Result, error) {
 					res.Unsupported[ab.msg]++
 				case abBound:
 					res.BoundHits[ab.msg]++
+					if st.violation != nil && len(res.BoundPaths) < 2 {
+						res.BoundPaths = append(res.BoundPaths, st.violation)
+					}
 				}
 				if cfg.MaxPaths > 0 && res.Paths >= cfg.MaxPaths {
 					res.Truncated = true
